@@ -50,6 +50,7 @@ ARG_SHAPES = [
 KW_LISTS = [
     L(N("1"), N("2")), L(N("0.5"), U("-", N("1"))), L(BOOL(True), BOOL(False)), L(S("a"), S("b")), L(N("1+2j")),
     L(V("n"), V("x")), L(), L(U("-", N("1"))),
+    L(S("caf\u00e9 \u03c0"), S("a\\b\\n"), S("tab\there"), S("a#b")),       # strings with non-ASCII, backslash, tab and comment characters inside a list
 ]
 KW_LISTS_T = [L(P("a"), N("1")), L(Q(0))]
 
@@ -67,6 +68,7 @@ METAS = [
     dict(name="m5", version="1.0", type=("tdm", [], [("temporal_modes", N("2")), ("copies", B("*", N("2"), N("5")))])),
     dict(name="m6", version="1.0", target=("TD2", None, []), type=("tdm", None, [])),
     dict(name="m7", version="1.0", target=("x.y_1", [], []), type=("other", [], [("k", U("-", N("1.5")))])),
+    dict(name="m7s", version="1.0", target=("g", [], [("s", S("caf\u00e9 \\n")), ("l", L(S("a\\b"), S("tab\there")))]), type=("t", [], [("w", S("C:\\x")), ("z", N("0")), ("f", BOOL(False)), ("e", S(""))])),
     dict(name="m8", version="1.0", target=("g", [], [("a", L(N("1"), N("2"))), ("b", L(N("3"))), ("c", L(S("x"), BOOL(False)))]), type=("t", [], [("d", L(N("0.5"))), ("e", L(N("1"), N("2")))])),
     # the remaining cells of the {absent, name only, with options} x {absent, name only, with options} grid for target x type
     dict(name="m9", version="1.0", target=("g", [], [("shots", N("10")), ("s", S("a"))]), type=("sampling", None, [])),
